@@ -39,10 +39,11 @@ def srem : List Key → Key → List Key
   | [], _ => []
   | a :: s, k => if a = k then srem s k else a :: srem s k
 
-/-- `for k, v := range o { m[k] = v }` -/
+/-- `for k, v := range o { m[k] = v }` (a Go map has one entry per key and no iteration order; reading `o` by first
+match, its first binding of a key is the one written last) -/
 def overlay (m : KV) : KV → KV
   | [] => m
-  | p :: o => overlay (insert m p.1 p.2) o
+  | p :: o => insert (overlay m o) p.1 p.2
 
 def saddAll (s : List Key) : List Key → List Key
   | [] => s
